@@ -495,6 +495,12 @@ def run(ctx: Ctx) -> int:
     session.clause_reachability(ctx, "C09")
     session.mc(ctx, 3, 2, name="C09_mc_v3_all", calls=2, hs="HSAll", data="DataAll", coverage=True)
     session.mc(ctx, 2, 3, name="C09_mc_v2_all", calls=3, fly=3)
+    # liveness: with an environment that keeps resolving what is pending, every call returns (FairSpec => EveryCallReturns)
+    session.live(ctx, 3, 2, name="C09_live_v3_c1_all", calls=1, hs="HSAll", data="DataNoise", life=True)
+    session.live(ctx, 3, 2, name="C09_live_v3_c2", calls=2, hs="HSValid" if ctx.quick else "HSSome", data="DataValid" if ctx.quick else "DataSome", life=True)
+    session.live(ctx, 2, 3, name="C09_live_v2_c2", calls=2, data="V2All", life=True)
+    if not ctx.quick:
+        session.live(ctx, 3, 3, name="C09_live_v3_r3_c2", calls=2, hs="HSSome", data="DataNoiseSome", life=True)
     runs = collect(ctx)
     tot = 0
     for ver in (2, 3):
